@@ -153,7 +153,7 @@ def _walk_any(x, acc):
 
 
 _TAGS = {"poly", "sym", "attr", "call", "tuple", "list", "sub", "slice", "const",
-         "op", "ite", "item", "elem", "nt", "top", "dict", "lambda", "star", "fstr", "new", "last"}
+         "op", "ite", "item", "elem", "nt", "top", "dict", "lambda", "star", "fstr", "new", "last", "vol"}
 
 
 def contains(t, needle):
@@ -216,6 +216,8 @@ def show(t):
         return "*" + show(t[1])
     if k == "new":
         return "<%s=%s>" % (t[1], show(t[2]))
+    if k == "vol":
+        return "%s@L%s" % (show(t[1]), t[2])
     if k == "fstr":
         return "f" + repr("".join(x[1] if x[0] == "const" else "{" + show(x[2][0]) + "}" for x in t[1]))
     if k == "dict":
@@ -227,9 +229,64 @@ def show(t):
 
 def cmp(op, a, b):
     """Canonical comparison term; symmetric comparisons have their operands ordered."""
+    if op == "Gt":
+        op, a, b = "Lt", b, a
+    elif op == "GtE":
+        op, a, b = "LtE", b, a
+    if is_num(a) and is_num(b) and op in ("Eq", "NotEq", "Lt", "LtE"):
+        va, vb = num_value(a), num_value(b)
+        return TRUE if {"Eq": va == vb, "NotEq": va != vb, "Lt": va < vb, "LtE": va <= vb}[op] else FALSE
+    if op in ("Eq", "NotEq", "Lt", "LtE") and (_proper_poly(a) or _proper_poly(b)) and _numericish(a) and _numericish(b):
+        # arithmetic comparisons: everything on the left, leading coefficient 1 (x + 1 == d  <=>  x == d - 1)
+        d = sub(a, b)
+        lead = None
+        for m, c in sorted(_pdict(d).items(), key=_key):
+            if m != ():
+                lead = c
+                break
+        if lead is not None:
+            if op in ("Eq", "NotEq"):
+                d = mul(d, num(Fr(1) / lead))
+                return ("op", "cmp:" + op, tuple(sorted((d, ZERO), key=_key)))
+            d = mul(d, num(Fr(1) / abs(lead)))
+            if lead > 0:
+                return ("op", "cmp:" + op, (d, ZERO))
+            return ("op", "cmp:" + op, (ZERO, neg(d)))
     if op in ("Eq", "NotEq", "Is", "IsNot"):
         a, b = sorted((a, b), key=_key)
     return ("op", "cmp:" + op, (a, b))
+
+
+def _proper_poly(t):
+    if not is_poly(t) or is_num(t):
+        return False
+    return True
+
+
+def _numericish(t):
+    return t[0] not in ("const", "tuple", "list", "nt", "dict", "fstr", "lambda", "new", "slice", "star")
+
+
+_NEGATED = {"cmp:NotEq": "cmp:Eq", "cmp:IsNot": "cmp:Is", "cmp:NotIn": "cmp:In"}
+
+
+def literals(c, pol=True):
+    """Split a condition taken with polarity *pol* into the conjunction of literals it stands for:
+    `a and b` (true) -> a, b ; `a or b` (false) -> not a, not b ; `not a` -> a with flipped polarity ;
+    `a != b` -> (a == b, False).  Anything else is one literal."""
+    if c[0] == "op":
+        if c[1] == "not":
+            return literals(c[2][0], not pol)
+        if (c[1] == "and" and pol) or (c[1] == "or" and not pol):
+            out = []
+            for x in c[2]:
+                out += literals(x, pol)
+            return out
+        if c[1] in _NEGATED:
+            return [(("op", _NEGATED[c[1]], c[2]), not pol)]
+    if c == TRUE and pol or c == FALSE and not pol:
+        return []
+    return [(c, pol)]
 
 
 NONE = ("const", None)
@@ -304,8 +361,17 @@ class Evaluator:
         self.local_module = local_module   # module name whose top-level helpers are inlined on demand
         self.no_inline = set(no_inline)
         self._loop_counter = 0
+        self._cont_stack = []
+        self._brk_stack = []
+        self._pending_pc = ()
+        self.inline_closures = True
+        self.volatile = set()     # method names whose calls read shared mutable state (e.g. Event.is_set)
+        self._closures = {}       # nested function name -> (FunctionDef, defining env): local helpers are inlined when called
         self._depth = 0
         self._stack = ()
+        self.ctx_module = local_module  # module whose imports resolve call targets (calling-convention normalisation)
+        self.static_len = None    # optional callback: term -> known length of that sequence (protocol knowledge of a rule)
+        self.unroll = False       # unroll `for` statements over statically known iterables (no break/continue/return inside)
         self.assume = None        # optional callback: condition term -> True / False / None (partial evaluation)
         self.self_class = None    # qualified class name: `self.method(...)` of that class may be inlined
 
@@ -353,6 +419,14 @@ class Evaluator:
         res.env = out
         return res
 
+    def run_block(self, stmts, env=None):
+        """Evaluate a statement list (e.g. the body of one loop) from a given environment; Result.env is the final env."""
+        res = Result()
+        e = dict(self.module_env)
+        e.update(env or {})
+        res.env = self._block(list(stmts), e, (), res)
+        return res
+
     def expr(self, src_or_node, env=None):
         node = ast.parse(src_or_node, mode="eval").body if isinstance(src_or_node, str) else src_or_node
         e = dict(self.module_env)
@@ -364,8 +438,69 @@ class Evaluator:
         for s in stmts:
             if env is None:
                 return None
+            if isinstance(s, ast.If):
+                env, pc = self._if(s, env, pc, res)
+                continue
+            self._pending_pc = ()
             env = self._stmt(s, env, pc, res)
+            if self._pending_pc:
+                # an unrolled loop that may `return` puts the rest of the block under "did not return"
+                pc = pc + self._pending_pc
+                self._pending_pc = ()
         return env
+
+    def _unrolled(self, s, items, env, pc, res):
+        """Straight-line evaluation of `for` over statically known items.  `continue` ends an iteration, `break` ends
+        the loop, `return` ends the function: later iterations (and, for `return`, the code after the loop) are
+        evaluated under the negation of the conditions under which an earlier iteration left."""
+        env = dict(env)
+        gone = ()            # literals: no earlier iteration broke out / returned
+        breaks = []          # (condition term, env) of the break sites
+        returned = ()
+        for item in items:
+            ipc = pc + gone
+            self._bind(s.target, item, env, ipc, res)
+            self._cont_stack.append([])
+            self._brk_stack.append([])
+            n_ret = len(res.returns)
+            out = self._block(s.body, env, ipc, res)
+            for pcx, envx in self._cont_stack.pop():
+                cond = _conj([(c if pol else ("op", "not", (c,))) for c, pol in pcx[len(ipc):] if c != "loop" and c[0] != "loop"])
+                out = self._join(cond, envx, out)
+            for pcx, envx in self._brk_stack.pop():
+                cond = _conj([(c if pol else ("op", "not", (c,))) for c, pol in pcx[len(ipc):] if c[0] != "loop"])
+                breaks.append((_conj([(c if pol else ("op", "not", (c,))) for c, pol in pcx[len(pc):] if c[0] != "loop"]), envx))
+                gone = gone + tuple(literals(cond, False))
+            for pcx, v, node in res.returns[n_ret:]:
+                cond = _conj([(c if pol else ("op", "not", (c,))) for c, pol in pcx[len(ipc):] if c[0] != "loop"])
+                lits = tuple(literals(cond, False))
+                gone = gone + lits
+                returned = returned + lits
+            env = out
+            if env is None:
+                break
+        for cond, envx in reversed(breaks):
+            env = self._join(cond, envx, env)
+        return env, returned
+
+    def _if(self, s, env, pc, res):
+        """An `if` whose one branch leaves the block (return / continue / break) puts the rest of the block
+        under the negated condition: guard-clause style and if/else style give the same path conditions."""
+        c = self._e(s.test, env, pc, res)
+        d = self._decide(c)
+        if d is True:
+            return self._block(s.body, dict(env), pc, res), pc
+        if d is False:
+            return self._block(s.orelse, dict(env), pc, res), pc
+        pa = pc + tuple(literals(c, True))
+        pb = pc + tuple(literals(c, False))
+        a = self._block(s.body, dict(env), pa, res)
+        b = self._block(s.orelse, dict(env), pb, res)
+        if a is None and b is not None and _leaves_block(s.body):
+            return b, pb
+        if b is None and a is not None and _leaves_block(s.orelse):
+            return a, pa
+        return self._join(c, a, b), pc
 
     def _assigned(self, stmts):
         names = set()
@@ -386,6 +521,11 @@ class Evaluator:
                     for t in tgts:
                         for x in _target_names(t):
                             names.add(x)
+                elif isinstance(n, ast.Call) and isinstance(n.func, ast.Attribute) and n.func.attr in MUTATORS:
+                    # x.append(...) / self.items.append(...) change the container held in x / self.items
+                    for x in _target_names(n.func.value) if isinstance(n.func.value, (ast.Attribute, ast.Subscript)) else \
+                            ([n.func.value.id] if isinstance(n.func.value, ast.Name) else []):
+                        names.add(x)
         return names
 
     def _havoc(self, env, stmts, tag):
@@ -424,10 +564,13 @@ class Evaluator:
                 out[k] = va
             elif va is None or vb is None:
                 if isinstance(k, str):
-                    out[k] = ("ite", cond, va if va is not None else ("sym", k + "@undef"),
-                              vb if vb is not None else ("sym", k + "@undef"))
+                    out[k] = mk_ite(cond, va if va is not None else ("sym", k + "@undef"),
+                                    vb if vb is not None else ("sym", k + "@undef"))
+                else:
+                    # an attribute / item stored on one branch only keeps its previous value (the lvalue itself) on the other
+                    out[k] = mk_ite(cond, va if va is not None else k, vb if vb is not None else k)
             else:
-                out[k] = ("ite", cond, va, vb)
+                out[k] = mk_ite(cond, va, vb)
         return out
 
     def _stmt(self, s, env, pc, res):
@@ -476,24 +619,26 @@ class Evaluator:
             res.events.append(Event("raise", v, s, pc))
             return None
         if isinstance(s, ast.If):
-            c = self._e(s.test, env, pc, res)
-            d = self._decide(c)
-            if d is True:
-                return self._block(s.body, dict(env), pc, res)
-            if d is False:
-                return self._block(s.orelse, dict(env), pc, res)
-            a = self._block(s.body, dict(env), pc + ((c, True),), res)
-            b = self._block(s.orelse, dict(env), pc + ((c, False),), res)
-            return self._join(c, a, b)
+            return self._if(s, env, pc, res)[0]
         if isinstance(s, (ast.For, ast.AsyncFor)):
             it = self._e(s.iter, env, pc, res)
+            if self.unroll and not s.orelse:
+                items = self._static_items(it)
+                if items is not None and not any(isinstance(x, (ast.Yield, ast.YieldFrom)) for b in s.body for x in ast.walk(b)):
+                    out_env, extra = self._unrolled(s, items, env, pc, res)
+                    self._pending_pc = extra
+                    return out_env
             self._loop_counter += 1
             k = self._loop_counter
             res.loops.append((k, it, s))
             res.events.append(Event("loop", it, s, pc, extra=k))
             benv = self._havoc(env, s.body, "L%d" % k)
-            self._bind(s.target, ("elem", it), benv, pc, res)
+            self._bind(s.target, self._iter_elem(it), benv, pc, res)
+            self._cont_stack.append(None)
+            self._brk_stack.append(None)
             out = self._block(s.body, benv, pc + (("loop", k),), res)
+            self._cont_stack.pop()
+            self._brk_stack.pop()
             after = self._havoc(env, s.body, "A%d" % k)
             self._bind_havoc(s.target, after, "A%d" % k)
             if out is not None and not _has_loop_escape(s.body):
@@ -520,7 +665,11 @@ class Evaluator:
             c = self._e(s.test, benv, pc, res)
             res.loops.append((k, ("op", "while", (c,)), s))
             res.events.append(Event("loop", ("op", "while", (c,)), s, pc, extra=k))
+            self._cont_stack.append(None)
+            self._brk_stack.append(None)
             self._block(s.body, benv, pc + (("loop", k),), res)
+            self._cont_stack.pop()
+            self._brk_stack.pop()
             after = self._havoc(env, s.body, "A%d" % k)
             if s.orelse:
                 after = self._block(s.orelse, after, pc, res)
@@ -555,6 +704,7 @@ class Evaluator:
             res.nested[s.name] = (s, dict(env))
             env = dict(env)
             env[s.name] = ("sym", "<closure %s>" % s.name)
+            self._closures[s.name] = (s, env)
             return env
         if isinstance(s, ast.Delete):
             for t in s.targets:
@@ -569,6 +719,10 @@ class Evaluator:
             return env
         if isinstance(s, (ast.Break, ast.Continue)):
             res.events.append(Event("break" if isinstance(s, ast.Break) else "continue", None, s, pc))
+            if isinstance(s, ast.Continue) and self._cont_stack and self._cont_stack[-1] is not None:
+                self._cont_stack[-1].append((pc, dict(env)))
+            if isinstance(s, ast.Break) and self._brk_stack and self._brk_stack[-1] is not None:
+                self._brk_stack[-1].append((pc, dict(env)))
             return None
         return env
 
@@ -600,16 +754,26 @@ class Evaluator:
             return ("attr", self._e(target.value, env, pc, res), target.attr)
         base = self._e(target.value, env, pc, res)
         idx = self._e(target.slice, env, pc, res)
+        k = _as_int(idx)
+        if k is not None and k >= 0:
+            return ("item", base, k)
         return ("sub", base, idx)
 
     def _item(self, v, i, n=None):
+        if v[0] == "sub" and v[2][0] == "slice" and isinstance(i, int) and i >= 0:
+            # x[lo:hi][i] is x[lo + i] when it exists
+            lo, hi, st = v[2][1], v[2][2], v[2][3]
+            lo_k = 0 if lo == NONE else _as_int(lo)
+            hi_k = None if hi == NONE else _as_int(hi)
+            if lo_k is not None and lo_k >= 0 and (st == NONE or _as_int(st) == 1) and (hi == NONE or (hi_k is not None and lo_k + i < hi_k)):
+                return self._item(v[1], lo_k + i, None)
         if v[0] in ("tuple", "list") and not any(x[0] == "star" for x in v[1]):
             if i < len(v[1]):
                 return v[1][i]
         if v[0] == "nt" and i < len(v[2]):
             return v[2][i]
         if v[0] == "ite":
-            return ("ite", v[1], self._item(v[2], i, n), self._item(v[3], i, n))
+            return mk_ite(v[1], self._item(v[2], i, n), self._item(v[3], i, n))
         return ("item", v, i)
 
     # -- expressions --------------------------------------------------------
@@ -643,7 +807,7 @@ class Evaluator:
                 if fields and n.attr in fields:
                     return base[2][fields.index(n.attr)]
             if base[0] == "ite":
-                return ("ite", base[1], self._attr(base[2], n.attr, env), self._attr(base[3], n.attr, env))
+                return mk_ite(base[1], self._attr(base[2], n.attr, env), self._attr(base[3], n.attr, env))
             return lv
         if isinstance(n, ast.BinOp):
             return self._binop(n.op, self._e(n.left, env, pc, res), self._e(n.right, env, pc, res))
@@ -674,7 +838,7 @@ class Evaluator:
                 return self._e(n.body if d else n.orelse, env, pc, res)
             a = self._e(n.body, env, pc, res)
             b = self._e(n.orelse, env, pc, res)
-            return a if a == b else ("ite", c, a, b)
+            return mk_ite(c, a, b)
         if isinstance(n, (ast.Tuple, ast.List)):
             items = []
             for x in n.elts:
@@ -701,6 +865,15 @@ class Evaluator:
                         return base[1][k]
                 if base[0] == "nt" and 0 <= k < len(base[2]):
                     return base[2][k]
+                if k >= 0:
+                    # x[k] with a constant k is the same thing as the k-th item of an unpacking of x
+                    if base[0] == "sub" and base[2][0] == "slice":
+                        return self._item(base, k)
+                    lv = ("item", base, k)
+                    if lv in env:
+                        return env[lv]
+                    if base[0] == "ite":
+                        return mk_ite(base[1], self._item(base[2], k), self._item(base[3], k))
             return lv
         if isinstance(n, ast.Slice):
             return ("slice", self._e(n.lower, env, pc, res), self._e(n.upper, env, pc, res),
@@ -736,7 +909,7 @@ class Evaluator:
         if isinstance(n, ast.Starred):
             return ("star", self._e(n.value, env, pc, res))
         if isinstance(n, (ast.ListComp, ast.GeneratorExp, ast.SetComp, ast.DictComp)):
-            return ("op", "comp", (("const", ast.dump(n)),))
+            return self._comp(n, env, pc, res)
         if isinstance(n, ast.NamedExpr):
             v = self._e(n.value, env, pc, res)
             env[n.target.id] = v
@@ -744,6 +917,125 @@ class Evaluator:
         if isinstance(n, ast.Set):
             return ("op", "set", tuple(self._e(x, env, pc, res) for x in n.elts))
         return ("op", "unknown", (("const", ast.dump(n)),))
+
+    def _static_items(self, it):
+        """The items of an iterable whose contents are known statically (None otherwise)."""
+        if self.static_len is not None:
+            k = self.static_len(it)
+            if k is not None:
+                return [("item", it, i) for i in range(k)]
+        if it[0] in ("list", "tuple") and not any(x[0] == "star" for x in it[1]):
+            return list(it[1])
+        if it[0] == "call" and not it[3]:
+            name = show(it[1])
+            if name == "range" and 1 <= len(it[2]) <= 3:
+                ks = [_as_int(a) for a in it[2]]
+                if all(k is not None for k in ks):
+                    r = range(*ks) if len(ks) != 3 or ks[2] != 0 else None
+                    if r is not None and len(r) <= 16:
+                        return [num(k) for k in r]
+            if name == "enumerate" and len(it[2]) == 1:
+                xs = self._static_items(it[2][0])
+                if xs is not None:
+                    return [("tuple", (num(i), x)) for i, x in enumerate(xs)]
+            if name == "zip" and it[2]:
+                cols = [self._static_items(a) for a in it[2]]
+                if all(c is not None for c in cols):
+                    return [("tuple", tuple(row)) for row in zip(*cols)]
+            if name == "reversed" and len(it[2]) == 1:
+                xs = self._static_items(it[2][0])
+                if xs is not None:
+                    return list(reversed(xs))
+            if name in ("list", "tuple", "iter") and len(it[2]) == 1:
+                return self._static_items(it[2][0])
+        return None
+
+    def _iter_elem(self, it):
+        """The generic element of an iteration over *it*."""
+        if it[0] == "call" and show(it[1]) in ("itertools.product", "product"):
+            kw = dict(it[3])
+            rep = _as_int(kw.get("repeat", ONE))
+            if rep is not None and 1 <= rep <= 4 and set(kw) <= {"repeat"}:
+                return ("tuple", tuple(("elem", a) for a in it[2]) * rep)
+        if it[0] == "call" and show(it[1]) == "enumerate" and len(it[2]) == 1 and not it[3]:
+            return ("tuple", (("op", "index", (it[2][0],)), self._iter_elem(it[2][0])))
+        if it[0] == "call" and show(it[1]) == "zip" and not it[3]:
+            return ("tuple", tuple(self._iter_elem(a) for a in it[2]))
+        return ("elem", it)
+
+    def _comp(self, n, env, pc, res):
+        """Comprehensions.  Over statically known iterables (literal sequences, range(k), the result of an
+        inlined helper) they are unrolled to a list of elements; otherwise they become
+        comp(kind, element, iterable, condition, ...) over the generic element of each iterable."""
+        is_dict = isinstance(n, ast.DictComp)
+        out = []          # (elt, conds)
+        static = [True]
+        generic = []
+
+        def elt_of(e2, pcx):
+            if is_dict:
+                return ("tuple", (self._e(n.key, e2, pcx, res), self._e(n.value, e2, pcx, res)))
+            return self._e(n.elt, e2, pcx, res)
+
+        def rec(gens, e2, conds, pcx):
+            if not gens:
+                out.append((elt_of(e2, pcx), tuple(conds)))
+                return
+            g = gens[0]
+            it = self._e(g.iter, e2, pcx, res)
+            items = self._static_items(it)
+            if items is not None:
+                for item in items:
+                    e3 = dict(e2)
+                    self._bind(g.target, item, e3, pcx, Result())
+                    cs, dead = [], False
+                    pcy = pcx
+                    for c in g.ifs:
+                        ct = self._e(c, e3, pcy, res)
+                        d = _const_truth(ct)
+                        if d is None:
+                            d = self._decide(ct)
+                        if d is False:
+                            dead = True
+                            break
+                        if d is None:
+                            cs.append(ct)
+                            pcy = pcy + tuple(literals(ct, True))
+                    if not dead:
+                        rec(gens[1:], e3, conds + cs, pcy)
+            else:
+                static[0] = False
+                self._loop_counter += 1
+                k = self._loop_counter
+                res.loops.append((k, it, n))
+                e3 = dict(e2)
+                self._bind(g.target, self._iter_elem(it), e3, pcx, Result())
+                pcy = pcx + (("loop", k),)
+                cs = []
+                for c in g.ifs:
+                    ct = self._e(c, e3, pcy, res)
+                    cs.append(ct)
+                    pcy = pcy + tuple(literals(ct, True))
+                generic.append((it, tuple(cs)))
+                rec(gens[1:], e3, conds + cs, pcy)
+
+        rec(list(n.generators), dict(env), [], pc)
+        kind = {ast.ListComp: "list", ast.GeneratorExp: "list", ast.SetComp: "set", ast.DictComp: "dict"}[type(n)]
+        if static[0]:
+            if all(not cs for _, cs in out):
+                if kind == "dict":
+                    return ("dict", tuple((e[1][0], e[1][1]) for e, _ in out))
+                if kind == "set":
+                    return ("op", "set", tuple(e for e, _ in out))
+                return ("list", tuple(e for e, _ in out))
+            return ("op", "filtered", tuple(("tuple", (_conj(cs), e)) for e, cs in out))
+        if len(out) != 1:
+            return ("op", "comp", (("const", ast.dump(n)),))
+        elt, _ = out[0]
+        parts = [("const", kind), elt]
+        for it, cs in generic:
+            parts += [it, _conj(cs)]
+        return ("op", "comp", tuple(parts))
 
     def _attr(self, base, name, env):
         if base[0] == "nt":
@@ -818,13 +1110,31 @@ class Evaluator:
         return ("op", type(op).__name__, (a, b))
 
     def _call(self, n, env, pc, res):
-        f = self._e(n.func, env, pc, res)
+        # a method call on a receiver that is a case distinction stays one call on that receiver
+        self._callee_attr = isinstance(n.func, ast.Attribute)
+        try:
+            if isinstance(n.func, ast.Attribute):
+                base = self._e(n.func.value, env, pc, res)
+                self._callee_attr = False
+                fnode = n.func
+                d = dotted(fnode)
+                lv = ("attr", base, fnode.attr)
+                if base[0] == "ite" and not _has_nt_arm(base):
+                    f = lv
+                else:
+                    f = self._e(n.func, env, pc, Result())
+            else:
+                f = self._e(n.func, env, pc, res)
+        finally:
+            self._callee_attr = False
         args = []
         for x in n.args:
             if isinstance(x, ast.Starred):
                 v = self._e(x.value, env, pc, res)
                 if v[0] in ("tuple", "list") and not any(y[0] == "star" for y in v[1]):
                     args.extend(v[1])
+                elif self._static_items(v) is not None:
+                    args.extend(self._static_items(v))
                 else:
                     args.append(("star", v))
             else:
@@ -850,6 +1160,28 @@ class Evaluator:
                 t = ("nt", tname, tuple(vals))
                 res.events.append(Event("call", ("call", f, tuple(args), tuple(kws)), n, pc, extra=t))
                 return t
+        if fname in ("any", "all", "sum", "len", "list", "tuple") and len(args) == 1 and not kws:
+            arg0 = args[0]
+            if arg0[0] not in ("list", "tuple") and not (arg0[0] == "op" and arg0[1] == "filtered"):
+                items = self._static_items(arg0)
+                if items is not None:
+                    arg0 = ("list", tuple(items))
+            folded = _fold_reducer(fname, arg0)
+            if folded is not None:
+                return folded
+        if fname in ("min", "max") and len(args) == 1 and not kws and args[0][0] in ("list", "tuple") and len(args[0][1]) >= 1 \
+                and not any(x[0] == "star" for x in args[0][1]):
+            args = list(args[0][1])
+            if len(args) == 1:
+                return args[0]
+        if kws or args:
+            args, kws = self._canonical_args(f, args, kws)
+        if fname == "divmod" and not kws and len(args) == 2:
+            return ("tuple", (self._binop(ast.FloorDiv(), args[0], args[1]), self._binop(ast.Mod(), args[0], args[1])))
+        if fname == "range" and not kws and len(args) == 2 and args[0] == ZERO:
+            args = [args[1]]           # range(0, n) is range(n)
+        if fname == "range" and not kws and len(args) == 3 and args[2] == ONE:
+            args = [args[1]] if args[0] == ZERO else list(args[:2])
         if fname in COMMUTATIVE_CALLS and not kws and len(args) >= 2:
             args = sorted(set(args), key=_key)
             if len(args) == 1:
@@ -861,8 +1193,25 @@ class Evaluator:
         if fname in ("int", "float") and len(args) == 1 and not kws and is_num(args[0]):
             return args[0] if fname == "float" or num_value(args[0]).denominator == 1 else ("call", f, tuple(args), ())
         t = ("call", f, tuple(args), tuple(kws))
+        if self.volatile and isinstance(n.func, ast.Attribute) and n.func.attr in self.volatile:
+            # a read of shared mutable state: two reads are two values, told apart by their site
+            t = ("vol", t, getattr(n, "lineno", 0), getattr(n, "col_offset", 0))
+            res.events.append(Event("call", t[1], n, pc, extra=t))
+            return t
         ev = Event("call", t, n, pc)
         res.events.append(ev)
+        # straight-line code (unrolled evaluation): appending to a local list literal extends the literal
+        if self.unroll and isinstance(n.func, ast.Attribute) and isinstance(n.func.value, ast.Name) and n.func.attr == "append" \
+                and len(args) == 1 and not kws and not any(c[0] == "loop" for c in pc):
+            cur = env.get(n.func.value.id)
+            items = None
+            if cur is not None and cur[0] == "list" and not any(x[0] == "star" for x in cur[1]):
+                items = cur[1]
+            elif cur is not None and cur[0] == "new" and cur[2] == ("list", ()):
+                items = ()
+            if items is not None and not [c for c in pc if c[0] != "loop"]:
+                env[n.func.value.id] = ("list", tuple(items) + (args[0],))
+                return NONE
         # a mutating method call on a local container invalidates its literal value
         if isinstance(n.func, ast.Attribute) and isinstance(n.func.value, ast.Name) and n.func.attr in MUTATORS:
             cur = env.get(n.func.value.id)
@@ -884,12 +1233,32 @@ class Evaluator:
             cand = self.project.funcs.get(q)
             if cand is not None and cand.qual not in self._stack and not _is_generator(cand.node):
                 target = cand
-        if target is None and self.self_class and self.project is not None and f[0] == "attr" and f[1] == ("sym", "self"):
+        if target is None and self.self_class and self.project is not None and f[0] == "attr" and f[1] == ("sym", "self") \
+                and f[2] not in self.no_inline:
             cand = self.project.funcs.get(self.self_class + "." + f[2])
             if cand is not None and cand.qual not in self._stack and not _is_generator(cand.node) \
                     and not any((dotted(d) or "").endswith(("property", "contextmanager", "classmethod", "staticmethod")) for d in cand.node.decorator_list):
-                target = cand
-                args = [("sym", "self")] + list(args)
+                margs = [("sym", "self")] + list(args)
+                if self._depth < self.max_inline_depth and not any(a[0] == "star" for a in margs):
+                    # what is known about the object's fields holds inside its own method, and what the method
+                    # stores into them holds afterwards
+                    self_facts = {k: v for k, v in env.items() if isinstance(k, tuple) and _root_of(k)[0] == "self"}
+                    back = {}
+                    r = self._inline(cand, margs, kws, res, pc, env=self_facts, out_env=back)
+                    if r is not None:
+                        for k, v in back.items():
+                            if isinstance(k, tuple) and _root_of(k)[0] == "self":
+                                env[k] = v
+                        ev.extra = r
+                        return r
+        if target is None and self.inline_closures and f[0] == "sym" and f[1].startswith("<closure ") and f[1][9:-1] in self._closures \
+                and ("closure:" + f[1][9:-1]) not in self._stack and f[1][9:-1] not in self.no_inline:
+            cnode, cenv = self._closures[f[1][9:-1]]
+            if not _is_generator(cnode) and self._depth < self.max_inline_depth and not any(a[0] == "star" for a in args):
+                r = self._inline(cnode, args, kws, res, pc, env=cenv, tag="closure:" + f[1][9:-1])
+                if r is not None:
+                    ev.extra = r
+                    return r
         if target is not None and self._depth < self.max_inline_depth and not any(a[0] == "star" for a in args):
             r = self._inline(target, args, kws, res, pc)
             if r is not None:
@@ -897,7 +1266,126 @@ class Evaluator:
                 return r
         return t
 
-    def _inline(self, func, args, kws, res=None, pc=()):
+    def _callee(self, f):
+        """(FunctionDef-bearing Func, is_bound_method) of a call target when it resolves to one project function."""
+        pr = self.project
+        if pr is None:
+            return None, False
+        if f[0] == "sym":
+            if f[1] in self.inline:
+                return self.inline[f[1]], False
+            mod = self.ctx_module or self.local_module
+            if mod:
+                cand = pr.funcs.get(mod + "." + f[1])
+                if cand is not None:
+                    return cand, False
+                cand = pr.funcs.get(mod + "." + f[1] + ".__init__")     # a class of this module: its constructor
+                if cand is not None:
+                    return cand, True
+                tgt = self._imports(mod).get(f[1])
+                if tgt and tgt[0] == "symbol":
+                    cand = pr.funcs.get(tgt[1] + "." + tgt[2])
+                    if cand is not None:
+                        return cand, False
+                    cand = pr.funcs.get(tgt[1] + "." + tgt[2] + ".__init__")
+                    if cand is not None:
+                        return cand, True
+            return None, False
+        if f[0] == "attr":
+            if f[1][0] == "sym" and (f[1][1] + "." + f[2]) in self.inline:
+                return self.inline[f[1][1] + "." + f[2]], False
+            if f[1] == ("sym", "self") and self.self_class:
+                cand = pr.funcs.get(self.self_class + "." + f[2])
+                if cand is not None:
+                    return cand, True
+            if f[1][0] == "sym":
+                # Class.method(...) for a class of this module or imported by name (classmethods / static factories)
+                mod0 = self.ctx_module or self.local_module
+                if mod0:
+                    cand = pr.funcs.get("%s.%s.%s" % (mod0, f[1][1], f[2]))
+                    if cand is None:
+                        tgt0 = self._imports(mod0).get(f[1][1])
+                        if tgt0 and tgt0[0] == "symbol":
+                            cand = pr.funcs.get("%s.%s.%s" % (tgt0[1], tgt0[2], f[2]))
+                    if cand is not None:
+                        decos0 = [(dotted(d) or "") for d in cand.node.decorator_list]
+                        if any(d.endswith("classmethod") for d in decos0):
+                            return cand, True
+                        if any(d.endswith("staticmethod") for d in decos0):
+                            return cand, False
+            mod = self.ctx_module or self.local_module
+            if f[1][0] == "sym" and mod:
+                tgt = self._imports(mod).get(f[1][1])
+                if tgt and tgt[0] == "module":
+                    cand = pr.funcs.get(tgt[1] + "." + f[2])
+                    if cand is not None:
+                        return cand, False
+            cands = _methods_named(pr, f[2])
+            if len(cands) == 1:
+                return cands[0], True
+        return None, False
+
+    def bound_args(self, t):
+        """(Func, {parameter: term}) for a call term whose target resolves to one project function, else (None, None)."""
+        if t[0] != "call":
+            return None, None
+        func, bound = self._callee(t[1])
+        if func is None:
+            return None, None
+        a = func.node.args
+        params = [x.arg for x in a.posonlyargs + a.args]
+        decos = [(dotted(d) or "") for d in func.node.decorator_list]
+        if bound or (func.cls is not None and params and params[0] in ("self", "cls") and not any(d.endswith("staticmethod") for d in decos)):
+            params = params[1:]
+        if any(x[0] == "star" for x in t[2]):
+            return func, None
+        binding = dict(zip(params, t[2]))
+        for k, v in t[3]:
+            binding[k] = v
+        return func, binding
+
+    def _imports(self, mod):
+        try:
+            return self.project.imports(mod)
+        except Exception:
+            return {}
+
+    def _canonical_args(self, f, args, kws):
+        """Calling convention made canonical for calls that resolve to one project function: parameters without
+        a default are positional, parameters with a default are keywords (sorted).  `f(a, b=1)`, `f(a=a, b=1)`
+        and `f(a, 1)` then build the same term."""
+        if any(a[0] == "star" for a in args) or any(k == "**" for k, _ in kws):
+            return args, kws
+        func, bound = self._callee(f)
+        if func is None:
+            return args, kws
+        a = func.node.args
+        if a.vararg or a.kwarg or a.posonlyargs:
+            return args, kws
+        params = [x.arg for x in a.args]
+        decos = [(dotted(d) or "") for d in func.node.decorator_list]
+        if any(d.endswith(("property", "contextmanager")) for d in decos) and not bound:
+            return args, kws
+        if bound or (func.cls is not None and params and params[0] in ("self", "cls") and not any(d.endswith("staticmethod") for d in decos)):
+            params = params[1:]
+        ndef = len(a.defaults)
+        required = params[:len(params) - ndef] if ndef else list(params)
+        optional = params[len(params) - ndef:] if ndef else []
+        kwonly = [x.arg for x in a.kwonlyargs]
+        if len(args) > len(params):
+            return args, kws
+        binding = dict(zip(params, args))
+        for k, v in kws:
+            if k in binding or (k not in params and k not in kwonly):
+                return args, kws
+            binding[k] = v
+        if any(p not in binding for p in required):
+            return args, kws
+        new_args = [binding[p] for p in required]
+        new_kws = sorted(((p, binding[p]) for p in optional + kwonly if p in binding), key=lambda kv: kv[0])
+        return new_args, new_kws
+
+    def _inline(self, func, args, kws, res=None, pc=(), env=None, tag=None, out_env=None):
         fnode = func.node if hasattr(func, "node") else func
         a = fnode.args
         params = [x.arg for x in a.posonlyargs + a.args]
@@ -911,21 +1399,32 @@ class Evaluator:
             if k not in params or k in binding:
                 return None
             binding[k] = v
-        sub_ev = Evaluator(self.project, self.namedtuples, self.inline, self.module_env, self.max_inline_depth,
+        menv = self.module_env
+        if hasattr(func, "module") and self.project is not None and func.module.name != (self.ctx_module or self.local_module):
+            menv = _cached_module_env(self.project, func.module.name)
+        sub_ev = Evaluator(self.project, self.namedtuples, self.inline, menv, self.max_inline_depth,
                            self.local_module, self.no_inline)
         sub_ev._depth = self._depth + 1
-        sub_ev._stack = self._stack + ((func.qual,) if hasattr(func, "qual") else ())
+        sub_ev._stack = self._stack + ((func.qual,) if hasattr(func, "qual") else ((tag,) if tag else ()))
+        sub_ev._closures = dict(self._closures)
+        sub_ev.inline_closures = self.inline_closures
+        sub_ev.volatile = self.volatile
         sub_ev.assume = self.assume
+        sub_ev.static_len = self.static_len
+        sub_ev.unroll = self.unroll
         sub_ev.self_class = self.self_class
+        sub_ev.ctx_module = func.module.name if hasattr(func, "module") else self.ctx_module
         for p in params:
             if p not in binding:
                 if p in defaults:
-                    binding[p] = sub_ev._e(defaults[p], dict(self.module_env), (), Result())
+                    binding[p] = sub_ev._e(defaults[p], dict(menv), (), Result())
                 else:
                     return None
-        r = sub_ev.run(fnode, args=binding)
+        r = sub_ev.run(fnode, env=env, args=binding)
         if r.yields:
             return None
+        if out_env is not None and r.env is not None:
+            out_env.update(r.env)
         if res is not None:
             # what the helper does belongs to the caller's trace
             for e in r.events:
@@ -947,8 +1446,28 @@ class Evaluator:
             cond = c[0] if c[1] else ("op", "not", (c[0],))
             if len(conds) > 1:
                 cond = ("op", "and", tuple(x[0] if x[1] else ("op", "not", (x[0],)) for x in conds))
-            out = ("ite", cond, v, out)
+            out = mk_ite(cond, v, out)
         return out
+
+
+_METHODS_CACHE = {}
+
+
+def _methods_named(project, name):
+    key = id(project)
+    tab = _METHODS_CACHE.get(key)
+    if tab is None:
+        tab = {}
+        for q, fn in project.funcs.items():
+            if getattr(fn, "cls", None) is not None and getattr(fn, "parent", None) is None and not name_is_dunder(fn.node.name):
+                tab.setdefault(fn.node.name, []).append(fn)
+        _METHODS_CACHE.clear()
+        _METHODS_CACHE[key] = tab
+    return tab.get(name, [])
+
+
+def name_is_dunder(n):
+    return n.startswith("__") and n.endswith("__")
 
 
 def _replace(t, old, new):
@@ -957,6 +1476,85 @@ def _replace(t, old, new):
     if isinstance(t, tuple):
         return tuple(_replace(x, old, new) if isinstance(x, tuple) else x for x in t)
     return t
+
+
+def mk_ite(c, a, b):
+    """Case distinction with a canonical (un-negated) condition."""
+    if a == b:
+        return a
+    while True:
+        if c[0] == "op" and c[1] == "not":
+            c, a, b = c[2][0], b, a
+        elif c[0] == "op" and c[1] in _NEGATED:
+            c, a, b = ("op", _NEGATED[c[1]], c[2]), b, a
+        else:
+            break
+    if c == TRUE:
+        return a
+    if c == FALSE:
+        return b
+    return ("ite", c, a, b)
+
+
+def _has_nt_arm(t):
+    if t[0] == "ite":
+        return _has_nt_arm(t[2]) or _has_nt_arm(t[3])
+    return t[0] == "nt"
+
+
+def _conj(cs):
+    cs = list(cs)
+    if not cs:
+        return TRUE
+    return cs[0] if len(cs) == 1 else ("op", "and", tuple(cs))
+
+
+def _const_truth(t):
+    if t[0] == "const" and isinstance(t[1], (bool, type(None))):
+        return bool(t[1])
+    if is_num(t):
+        return num_value(t) != 0
+    return None
+
+
+def _fold_reducer(name, arg):
+    """any / all / sum / len / list / tuple of a statically known sequence."""
+    items = None
+    if arg[0] in ("list", "tuple") and not any(x[0] == "star" for x in arg[1]):
+        items = [(TRUE, x) for x in arg[1]]
+    elif arg[0] == "op" and arg[1] == "filtered":
+        items = [(x[1][0], x[1][1]) for x in arg[2]]
+    if items is None:
+        return None
+    plain = all(c == TRUE for c, _ in items)
+    if name == "any":
+        xs = [x if c == TRUE else ("op", "and", (c, x)) for c, x in items]
+        return FALSE if not xs else (xs[0] if len(xs) == 1 else ("op", "or", tuple(xs)))
+    if name == "all":
+        xs = [x if c == TRUE else ("op", "or", (("op", "not", (c,)), x)) for c, x in items]
+        return TRUE if not xs else (xs[0] if len(xs) == 1 else ("op", "and", tuple(xs)))
+    if name == "sum":
+        t = ZERO
+        for c, x in items:
+            t = add(t, x if c == TRUE else ("ite", c, x, ZERO))
+        return t
+    if name == "len" and plain:
+        return num(len(items))
+    if name in ("list", "tuple") and plain:
+        return (name, tuple(x for _, x in items))
+    return None
+
+
+def _leaves_block(stmts):
+    """The statement list ends by leaving the enclosing block (return / continue / break / raise)."""
+    if not stmts:
+        return False
+    last = stmts[-1]
+    if isinstance(last, (ast.Return, ast.Continue, ast.Break, ast.Raise)):
+        return True
+    if isinstance(last, ast.If):
+        return _leaves_block(last.body) and _leaves_block(last.orelse)
+    return False
 
 
 def _has_loop_escape(stmts):
@@ -1078,6 +1676,21 @@ def module_env(project, modname, ev=None):
     return env
 
 
+_MODENV_CACHE = {}
+
+
+def _cached_module_env(project, modname):
+    key = (id(project), modname)
+    if key not in _MODENV_CACHE:
+        if len(_MODENV_CACHE) > 64:
+            _MODENV_CACHE.clear()
+        try:
+            _MODENV_CACHE[key] = module_env(project, modname)
+        except Exception:
+            _MODENV_CACHE[key] = {}
+    return _MODENV_CACHE[key]
+
+
 def make_evaluator(project, modname, inline_names=(), inline_local=False, no_inline=()):
     """Evaluator for functions of *modname* with module constants folded and
     the named pure helpers (qualified names) inlinable under their local names."""
@@ -1097,4 +1710,6 @@ def make_evaluator(project, modname, inline_names=(), inline_local=False, no_inl
                 inline[local] = f
             if tgt[0] == "module" and tgt[1] == f.module.name:
                 inline[local + "." + short] = f
-    return Evaluator(project, nts, inline, menv, local_module=modname if inline_local else None, no_inline=no_inline)
+    ev = Evaluator(project, nts, inline, menv, local_module=modname if inline_local else None, no_inline=no_inline)
+    ev.ctx_module = modname
+    return ev
